@@ -120,6 +120,46 @@ func (c *Check) Gate(spec GateSpec) bool {
 
 func scopeFuncs(fn *ssa.Function) []*ssa.Function { return WithClosures(Outermost(fn)) }
 
+var helperCalleeMemo = map[*ssa.Function][]*ssa.Function{}
+
+// HelperCallees lists the unexported same-package functions statically called (transitively, three levels) from fn
+// and its closures: the functions the explorer walks inline in InlineHelpers mode.
+func HelperCallees(fn *ssa.Function) []*ssa.Function {
+	if v, ok := helperCalleeMemo[fn]; ok {
+		return v
+	}
+	seen := map[*ssa.Function]bool{fn: true}
+	var out []*ssa.Function
+	var visit func(f *ssa.Function, depth int)
+	visit = func(f *ssa.Function, depth int) {
+		for _, g := range withClosuresRaw(f) {
+			for _, b := range g.Blocks {
+				for _, ins := range b.Instrs {
+					call, ok := ins.(*ssa.Call)
+					if !ok {
+						continue
+					}
+					h := call.Call.StaticCallee()
+					if h == nil || seen[h] || len(h.Blocks) == 0 || len(h.Blocks) > 80 || h.Pkg == nil || h.Pkg != fn.Pkg || h.Parent() != nil || h.Synthetic != "" {
+						continue
+					}
+					if n := h.Name(); n == "" || !(n[0] >= 'a' && n[0] <= 'z') {
+						continue
+					}
+					seen[h] = true
+					out = append(out, withClosuresRaw(h)...)
+					if depth < 3 {
+						visit(h, depth+1)
+					}
+				}
+			}
+		}
+	}
+	visit(fn, 1)
+	helperCalleeMemo[fn] = out
+	return out
+}
+
 // CallOK: some call to one of the callees (anywhere in the enclosing function tree) has a nil error
 // result (its last result) on this path.
 func CallOK(name string, cs ...Callee) Req {
@@ -273,6 +313,28 @@ func (s *State) AnyFact(match func(s *State, x, y ssa.Value, r Rel) bool) bool {
 				if match(s, s.Canon(bo.Y), s.Canon(bo.X), flip(r)) {
 					return true
 				}
+				// len(str) compared with 0 is also presented as str compared with "" (the two spellings of an emptiness test)
+				for _, pr := range [][2]ssa.Value{{bo.X, bo.Y}, {bo.Y, bo.X}} {
+					lc, isCall := s.Canon(pr[0]).(*ssa.Call)
+					if !isCall || BuiltinName(lc) != "len" || !IsIntConst(pr[1], 0) {
+						continue
+					}
+					str := s.Canon(lc.Call.Args[0])
+					if bt, isB := str.Type().Underlying().(*types.Basic); !isB || bt.Info()&types.IsString == 0 {
+						continue
+					}
+					rr := s.Rel(pr[0], pr[1])
+					sr := NE
+					if rr == EQ {
+						sr = EQ
+					} else if rr&EQ != 0 {
+						continue
+					}
+					empty := ssa.NewConst(constant.MakeString(""), str.Type())
+					if match(s, str, empty, sr) || match(s, empty, str, sr) {
+						return true
+					}
+				}
 			}
 		}
 	}
@@ -398,6 +460,27 @@ func (c *Check) ErrProp(spec ErrPropSpec) bool {
 		}
 		f, why := spec.Failing(s)
 		if !f {
+			// tail forwarding (`return x, f(...)`): the returned error IS some call's error. Under the hypothesis that it is
+			// non-nil, does the failure condition hold? Then this return is a failing return that propagates by construction.
+			fi := spec.ErrIdx
+			if fi < 0 {
+				fi = len(ret.Results) + fi
+			}
+			if fi >= 0 && fi < len(ret.Results) {
+				rv := s.Canon(ret.Results[fi])
+				_, isCall := rv.(*ssa.Call)
+				if ex, isEx := rv.(*ssa.Extract); isEx {
+					_, isCall = ex.Tuple.(*ssa.Call)
+				}
+				if isCall && isErrorType(rv.Type()) && !s.KnownNilErr(rv) && !s.NonNil(rv) {
+					h := s.clone()
+					if h.SetRel(rv, ssa.NewConst(nil, rv.Type()), NE) {
+						if f2, _ := spec.Failing(h); f2 {
+							failingReturns++
+						}
+					}
+				}
+			}
 			return true
 		}
 		failingReturns++
